@@ -245,6 +245,32 @@ CHECKS['C17'] = dict(
     design='5/C17',
 )
 
+CHECKS['C18'] = dict(
+    level='exploration',
+    text=("Exhaustive over a grid of configurations, one subprocess each: every target (shipped modules, import-graph "
+          "modules, DSL expressions, translations of shipped and generated Metamath databases with 2+ variables) under every "
+          "hash seed of a window selected by VERIF_SEED; every sequence of 2 (and 3) targets serialised in one process, so "
+          "that each target is produced after every history; every target serialised three times from one module object (as "
+          "translate.main does). All 12 files (binary and pretty, optimise off and on) must be byte-identical to the baseline "
+          "(fresh process, PYTHONHASHSEED=0, empty history)."),
+    note='Hash seeds: 8 (quick) / 32 (thorough) per run; targets the toolkit refuses (known findings of other properties) are dropped.',
+    technique='exhaustive enumeration of (target, hash seed, in-process history) configurations against a baseline',
+    design='5/C18',
+)
+CHECKS['C20'] = dict(
+    level='model_checking',
+    text=("Explicit-state exploration of trace histories on real ExecutionProofExp objects over signatures built with the real "
+          "LanguageSemantics builder (constants with cyclic rules; unary/binary symbols, a cell, a sort-parametric symbol, "
+          "rules with variables incl. a repeated one): from every reached state every (rule, ground substitution) event is "
+          "tried; a step is accepted iff it starts at the configuration reached, a refused step leaves claims/axioms/proofs "
+          "unchanged, the claims are exactly the instantiated rewrites so far; every maximal history is serialised with both "
+          "settings and accepted by reference machine and real checker with all claims discharged. Conversion from (stub) "
+          "Kore: variable scoping per axiom and convert(rule).instantiate(convert(s)) == convert(s(rule)) for all ground s."),
+    note='Assumption: mc/stubs/pyk/kore/syntax.py stands in for the absent pyk.kore.syntax. Trace length 4 (quick) / 5 (thorough).',
+    technique='explicit-state BFS over rewrite-event histories of the real proof-module object; end-to-end acceptance by the real checker',
+    design='5/C20',
+)
+
 NOT_YET = {
 }
 
